@@ -696,7 +696,7 @@ func main() {
 		run(c, gen(c, 0, n), "boundary", true)
 	}
 	// random small payloads through the model (Coq evaluates SHA-256/AES in the VM: keep them short)
-	for i := 0; i < c.N(24, 150); i++ {
+	for i := 0; i < c.N(24, 60); i++ {
 		run(c, gen(c, 0, 4*c.Rng.Intn(65)), "small", true)
 	}
 	// explicit MessageDataLen path (compression threshold set, payload below threshold)
@@ -743,18 +743,18 @@ func main() {
 	for _, n := range []int{0, 512, 1020, 1024, 1028, 4096, 65536} {
 		runConn(c, genConn(c, 0, n, false), "conn-default", false)
 	}
-	for i := 0; i < c.N(60, 1500); i++ {
+	for i := 0; i < c.N(60, 500); i++ {
 		runConn(c, genConn(c, []int{0, -1, 16, 300, 1024, 5000}[c.Rng.Intn(6)], 4*c.Rng.Intn(700), false), "conn-random", false)
 	}
 	// another sender of the same process runs at every scheduling point of the write path (each log line
 	// between encoding and sending): buffers taken from the shared pool must never alias a message in flight
-	for i := 0; i < c.N(40, 600); i++ {
+	for i := 0; i < c.N(40, 150); i++ {
 		t := genConn(c, []int{0, -1, 16, 300, 1024}[c.Rng.Intn(5)], 4*c.Rng.Range(1, 1200), true)
 		for attempt := 0; attempt < 3; attempt++ {
 			runConn(c, t, "conn-interleaved", false)
 		}
 	}
-	connStress(c, 8, c.N(150, 2000))
+	connStress(c, 8, c.N(150, 600))
 	// larger payloads: implementation + oracle only (round trip checked in Go, not evaluated in Coq)
 	big := []int{1024, 4096, 16384, 65536}
 	if c.Thorough() {
@@ -768,7 +768,7 @@ func main() {
 			run(c, gen(c, m, n), "large(go-only)", false)
 		}
 	}
-	for i := 0; i < c.N(300, 5000); i++ {
+	for i := 0; i < c.N(300, 2000); i++ {
 		run(c, gen(c, c.Rng.Intn(3), 4*c.Rng.Intn(513)), "go-only", false)
 	}
 	// every payload length 0..1100 (step 4) with the minimal padding selector: every padded plaintext length
